@@ -110,15 +110,24 @@ class RawPayloadDecoder(AbstractSimplePayloadDecoder):
 
             return
 
+        component = noValue
+
         while True:
             for value in decodeFun(
                     substrate, asn1Spec, tagSet, length,
                     allowEoo=True, **options):
 
-                if value is eoo.endOfOctets:
-                    return
+                if isinstance(value, SubstrateUnderrunError):
+                    yield value
 
-                yield value
+                elif value is not eoo.endOfOctets:
+                    component = value
+
+            if value is eoo.endOfOctets:
+                break
+
+        # the value comes last, once the closing end-of-octets has been read
+        yield component
 
 
 rawPayloadDecoder = RawPayloadDecoder()
